@@ -79,7 +79,7 @@ func init() {
 			seqOf := func(f *prog.FuncInfo) []string {
 				var out []string
 				info := f.Pkg.TypesInfo
-				ast.Inspect(f.Decl.Body, func(nd ast.Node) bool {
+				inspect(f.Decl.Body, func(nd ast.Node) bool {
 					call, ok := nd.(*ast.CallExpr)
 					if !ok {
 						return true
@@ -124,7 +124,7 @@ func init() {
 			wi := wf.Pkg.TypesInfo
 			es := r.P.Field("dkv/sst", "Table", "entriesSize")
 			var esPos, firstWrite token.Pos
-			ast.Inspect(wf.Decl.Body, func(nd ast.Node) bool {
+			inspect(wf.Decl.Body, func(nd ast.Node) bool {
 				if as, ok := nd.(*ast.AssignStmt); ok && len(as.Lhs) == 1 && prog.SelField(wi, as.Lhs[0]) == es {
 					esPos = as.Pos()
 				}
@@ -141,7 +141,7 @@ func init() {
 			tw := r.P.Func("dkv/sst", "(*TableWriter).Write")
 			size := r.P.Field("dkv/sst", "Table", "size")
 			okSize := false
-			ast.Inspect(tw.Decl.Body, func(nd ast.Node) bool {
+			inspect(tw.Decl.Body, func(nd ast.Node) bool {
 				if as, ok := nd.(*ast.AssignStmt); ok && as.Tok == token.ADD_ASSIGN && len(as.Lhs) == 1 && prog.SelField(tw.Pkg.TypesInfo, as.Lhs[0]) == size && r.exprCalls(tw.Pkg.TypesInfo, as.Rhs[0], wf.Obj) {
 					okSize = true
 				}
@@ -159,11 +159,11 @@ func init() {
 			norm := func(f *prog.FuncInfo) (string, string) {
 				info := f.Pkg.TypesInfo
 				loopSrc, idx := "", ""
-				ast.Inspect(f.Decl.Body, func(nd ast.Node) bool {
+				inspect(f.Decl.Body, func(nd ast.Node) bool {
 					if rs, ok := nd.(*ast.RangeStmt); ok && loopSrc == "" {
 						loopSrc = types.ExprString(rs.X)
 						i := prog.IdentObj(info, rs.Key)
-						ast.Inspect(rs.Body, func(m ast.Node) bool {
+						inspect(rs.Body, func(m ast.Node) bool {
 							call, ok := m.(*ast.CallExpr)
 							if !ok || len(call.Args) != 1 {
 								return true
@@ -211,7 +211,7 @@ func init() {
 			gb := r.P.Func("dkv/bloom", "(*Filter).getBit")
 			words := func(f *prog.FuncInfo) string {
 				var parts []string
-				ast.Inspect(f.Decl.Body, func(nd ast.Node) bool {
+				inspect(f.Decl.Body, func(nd ast.Node) bool {
 					if as, ok := nd.(*ast.AssignStmt); ok && as.Tok == token.DEFINE && len(as.Lhs) == 1 {
 						parts = append(parts, types.ExprString(as.Lhs[0])+"="+types.ExprString(as.Rhs[0]))
 					}
@@ -226,7 +226,7 @@ func init() {
 			// MightHave returns false on the first clear bit, true at the end
 			mi := mh.Pkg.TypesInfo
 			okNeg := false
-			ast.Inspect(mh.Decl.Body, func(nd ast.Node) bool {
+			inspect(mh.Decl.Body, func(nd ast.Node) bool {
 				if is, ok := nd.(*ast.IfStmt); ok {
 					if u, ok := ast.Unparen(is.Cond).(*ast.UnaryExpr); ok && u.Op == token.NOT {
 						for _, st := range is.Body.List {
@@ -254,7 +254,7 @@ func init() {
 			tg := r.P.Func("dkv/sst", "(*Table).Get")
 			ti := tg.Pkg.TypesInfo
 			okUse := false
-			ast.Inspect(tg.Decl.Body, func(nd ast.Node) bool {
+			inspect(tg.Decl.Body, func(nd ast.Node) bool {
 				if is, ok := nd.(*ast.IfStmt); ok {
 					if u, ok := ast.Unparen(is.Cond).(*ast.UnaryExpr); ok && u.Op == token.NOT && r.exprCalls(ti, u.X, mh.Obj) {
 						if call, ok := ast.Unparen(u.X).(*ast.CallExpr); ok && len(call.Args) == 1 && r.isParam(tg, call.Args[0], 0) {
@@ -287,7 +287,7 @@ func init() {
 				r.Fail(f.Name()+":size-accounting", f.Decl.Pos(), nil, "writeEntry must add every written field to t.size (found %d additions, need key, seqNum, tombstone [, value])", n1)
 			}
 			// every fields.MustWrite* result is added to size
-			ast.Inspect(f.Decl.Body, func(nd ast.Node) bool {
+			inspect(f.Decl.Body, func(nd ast.Node) bool {
 				if es, ok := nd.(*ast.ExprStmt); ok {
 					if call, ok := ast.Unparen(es.X).(*ast.CallExpr); ok && fieldToken(r.P.CalleeFunc(info, call)) != "" {
 						r.Fail(f.Name()+":unaccounted-write", call.Pos(), nil, "a field is written without adding its width to t.size: every later index offset is short by that much and lookups read garbage")
@@ -296,7 +296,7 @@ func init() {
 				return true
 			})
 			// IndexOffset(t.size), filter.Add(entry.Key())
-			ast.Inspect(f.Decl.Body, func(nd ast.Node) bool {
+			inspect(f.Decl.Body, func(nd ast.Node) bool {
 				call, ok := nd.(*ast.CallExpr)
 				if !ok {
 					return true
@@ -318,7 +318,7 @@ func init() {
 			start := r.P.Field("dkv/sst", "Table", "startKey")
 			endK := r.P.Field("dkv/sst", "Table", "endKey")
 			okEnd, okStart := false, false
-			ast.Inspect(f.Decl.Body, func(nd ast.Node) bool {
+			inspect(f.Decl.Body, func(nd ast.Node) bool {
 				switch x := nd.(type) {
 				case *ast.IfStmt:
 					if neg, ok := lenLikeZero(info, x.Cond, size); ok && !neg {
@@ -360,7 +360,7 @@ func init() {
 			spacing := r.P.Pkg("dkv/sst").Types.Scope().Lookup("searchIndexSpacing")
 			okCond, okInc, okApp := false, false, false
 			var condPos, incPos token.Pos
-			ast.Inspect(f.Decl.Body, func(nd ast.Node) bool {
+			inspect(f.Decl.Body, func(nd ast.Node) bool {
 				switch x := nd.(type) {
 				case *ast.IfStmt:
 					if b, ok := ast.Unparen(x.Cond).(*ast.BinaryExpr); ok && b.Op == token.EQL {
@@ -413,7 +413,7 @@ func init() {
 				return
 			}
 			var retCmp *ast.CallExpr
-			ast.Inspect(cmpLit.Body, func(nd ast.Node) bool {
+			inspect(cmpLit.Body, func(nd ast.Node) bool {
 				if ret, ok := nd.(*ast.ReturnStmt); ok && len(ret.Results) == 1 {
 					if call, ok := isCallToNamed(si, ret.Results[0], "bytes", "Compare"); ok {
 						retCmp = call
@@ -438,7 +438,7 @@ func init() {
 			}
 			// step back on inexact
 			okStep := false
-			ast.Inspect(s.Decl.Body, func(nd ast.Node) bool {
+			inspect(s.Decl.Body, func(nd ast.Node) bool {
 				if is, ok := nd.(*ast.IfStmt); ok {
 					if u, ok := ast.Unparen(is.Cond).(*ast.UnaryExpr); ok && u.Op == token.NOT {
 						for _, st := range is.Body.List {
@@ -456,7 +456,7 @@ func init() {
 			}
 			// start = offsets[found], end = offsets[found+1] or MaxInt64 when last
 			var startIdx, endIdx string
-			ast.Inspect(s.Decl.Body, func(nd ast.Node) bool {
+			inspect(s.Decl.Body, func(nd ast.Node) bool {
 				if as, ok := nd.(*ast.AssignStmt); ok && len(as.Lhs) == 1 && len(as.Rhs) == 1 {
 					if ix, ok := ast.Unparen(stripConv(si, as.Rhs[0])).(*ast.IndexExpr); ok && prog.SelField(si, ix.X) == offsets {
 						name := types.ExprString(as.Lhs[0])
@@ -476,7 +476,7 @@ func init() {
 			tg := r.P.Func("dkv/sst", "(*Table).Get")
 			ti := tg.Pkg.TypesInfo
 			var startV, endV types.Object
-			ast.Inspect(tg.Decl.Body, func(nd ast.Node) bool {
+			inspect(tg.Decl.Body, func(nd ast.Node) bool {
 				if as, ok := nd.(*ast.AssignStmt); ok && len(as.Lhs) == 3 && len(as.Rhs) == 1 {
 					if call, ok := ast.Unparen(as.Rhs[0]).(*ast.CallExpr); ok && r.P.CalleeFunc(ti, call) == s.Obj {
 						startV, endV = prog.IdentObj(ti, as.Lhs[0]), prog.IdentObj(ti, as.Lhs[1])
@@ -495,7 +495,7 @@ func init() {
 			}
 			move := r.P.FuncObj("dkv/storage", "(*Cursor).Move")
 			okMove := false
-			ast.Inspect(tg.Decl.Body, func(nd ast.Node) bool {
+			inspect(tg.Decl.Body, func(nd ast.Node) bool {
 				if _, isLit := nd.(*ast.FuncLit); isLit {
 					return false
 				}
@@ -532,7 +532,7 @@ func init() {
 					var widths []string
 					var orders []string
 					var methods []string
-					ast.Inspect(f.Decl.Body, func(nd ast.Node) bool {
+					inspect(f.Decl.Body, func(nd ast.Node) bool {
 						call, ok := nd.(*ast.CallExpr)
 						if !ok {
 							return true
@@ -583,7 +583,7 @@ func init() {
 			wt := r.P.Func("dkv/fields", "writeTombstone")
 			rt := r.P.Func("dkv/fields", "ReadTombstone")
 			okW, okR := false, false
-			ast.Inspect(wt.Decl.Body, func(nd ast.Node) bool {
+			inspect(wt.Decl.Body, func(nd ast.Node) bool {
 				if is, ok := nd.(*ast.IfStmt); ok && r.isParam(wt, is.Cond, 1) {
 					for _, st := range is.Body.List {
 						if as, ok := st.(*ast.AssignStmt); ok && len(as.Rhs) == 1 {
@@ -595,7 +595,7 @@ func init() {
 				}
 				return true
 			})
-			ast.Inspect(rt.Decl.Body, func(nd ast.Node) bool {
+			inspect(rt.Decl.Body, func(nd ast.Node) bool {
 				if b, ok := nd.(*ast.BinaryExpr); ok && b.Op == token.EQL {
 					if tv, ok := rt.Pkg.TypesInfo.Types[b.Y]; ok && tv.Value != nil && tv.Value.String() == "1" {
 						okR = true
@@ -645,7 +645,7 @@ func exprMentionsParam(info *types.Info, f *prog.FuncInfo, e ast.Node, idx int) 
 	}
 	p := sig.Params().At(idx)
 	found := false
-	ast.Inspect(e, func(nd ast.Node) bool {
+	inspect(e, func(nd ast.Node) bool {
 		if id, ok := nd.(*ast.Ident); ok && info.Uses[id] == types.Object(p) {
 			found = true
 		}
